@@ -137,6 +137,36 @@ def check(ctx, prefixes=SCOPE_PREFIXES, P="C11", ids=None):
                 ctx.check(k == ALIAS, "C11.R1b", f"{fo.qualname}:yield {norm(n.value)}", n,
                           f"flattened alias collector yields {k}: the caller applies the dynamic aliaser to its result", fo, n, detail="yield field.alias")
 
+    if P == "C11":
+        # R8: descriptors of resolver parameters are built from the declared hint
+        ctx.rule("C11.R8", "the ObjectField describing a resolver parameter is built from the declared type hint itself (types[param.name]), where an Annotated alias is the outermost constructor, in the schema builder and in the resolver wrapper alike", floor=2)
+        for q in ("apischema.graphql.schema.OutputSchemaBuilder._resolver", "apischema.graphql.resolvers.resolver_resolve"):
+            fi = model.func(q)
+            ctors = [c for c in walk_no_nested(fi.node) if isinstance(c, ast.Call) and dotted(c.func) == "ObjectField"]
+            ctx.require(len(ctors) == 1, f"{q}: ObjectField construction of the parameter not found")
+            c = ctors[0]
+            bound = bind_args(["name", "type", "required", "metadata", "default"], c)
+            tvar = bound.get("type")
+            ok = isinstance(tvar, ast.Name)
+            why = "the type argument is not the looked-up hint"
+            if ok:
+                defs = [n for n in walk_no_nested(fi.node) if isinstance(n, (ast.Assign, ast.AnnAssign, ast.AugAssign))
+                        and any(isinstance(t, ast.Name) and t.id == tvar.id for t in ([n.target] if not isinstance(n, ast.Assign) else n.targets))]
+                before = [d for d in defs if d.lineno < c.lineno]
+                ok = len(before) == 1 and isinstance(before[0], ast.Assign) and isinstance(before[0].value, ast.Subscript) \
+                    and norm(before[0].value.value).split(".")[-1] == "types" and norm(before[0].value.slice).endswith(".name")
+                if not ok:
+                    extra = [d for d in before if not (isinstance(d, ast.Assign) and isinstance(d.value, ast.Subscript))]
+                    why = (f"`{short(extra[0], 50)}` rewrites the hint before the descriptor is built" if extra else "the hint lookup `types[param.name]` is not the only definition reaching the descriptor")
+            ctx.check(ok, "C11.R8", f"{q}:ObjectField.type", None,
+                      f"{why}: ObjectField reads alias / schema metadata from an outermost Annotated only, so the argument is published (or read) under the Python name while the other side uses the alias",
+                      fi, c, detail=f"ObjectField(param.name, {norm(tvar) if tvar is not None else '?'} = types[param.name], ...)")
+
+    if P == "C11":
+        ctx.rule("C11.R9", "name / alias domains: a container is looked up with keys of one domain only (Python names or external aliases); names and aliases are compared on the same field only", floor=20)
+        from .common_domains import name_alias_domains_rule
+        name_alias_domains_rule(ctx, "C11.R9", ("apischema.deserialization", "apischema.serialization", "apischema.json_schema", "apischema.graphql", "apischema.validation", "apischema.objects", "apischema.discriminators", "apischema.dependencies"))
+
     # ---------------- R2: sinks
     ctx.rule(ids["R2"], "every external-key sink receives the alias aliased exactly once", floor=12 if P == "C11" else 3)
     if P == "C11":
@@ -407,6 +437,8 @@ def fixtures(ctx):
 
 
 def mutants(mb):
+    mb.add_text("resolver-field-after-optional", "apischema/graphql/resolvers.py", "        param_type = types[param.name]\n        if is_union_of(param_type, graphql.GraphQLResolveInfo):\n            info_parameter = param.name\n        else:\n",
+                "        param_type = types[param.name]\n        if is_union_of(param_type, graphql.GraphQLResolveInfo):\n            info_parameter = param.name\n        else:\n            if param.default is None:\n                param_type = Optional[param_type]\n", "C11.R8", "resolver_resolve")
     mb.add_text("validator-alias-of-owner", "apischema/validation/validators.py", "            alias = getattr(get_alias(obj), get_field_name(validator.field))\n", "            alias = getattr(get_alias(validator.owner), get_field_name(validator.field))\n", "C11.R2", "alias-of-validated-class")
     mb.add_text("apply-aliaser-flag-overwritten", "apischema/validation/errors.py", "        aliased |= child2 is not child\n", "        aliased = child2 is not child\n", "C11.R5", "monotone")
     mb.add_text("deser-field-slot-alias", "apischema/deserialization/__init__.py", "                        Field(\n                            field.name,\n", "                        Field(\n                            field.alias,\n", "C11.R6", "Field.name")
